@@ -211,7 +211,7 @@ def kp_contract(q, cls, unsup, xname, iname):
                  if v.has("pred_subgraph") else [])),
              modifies=[],
              ghost=GHOST_KP,
-             hints=[("after:loop4", lambda v, old: kp_answer(v, old, unsup))],
+             asserts=[("after:loop4", lambda v, old: kp_answer(v, old, unsup))],
              loops=[LoopSpec("for", var="i", inv=lambda v, old, le_: kp_outer(v, old, le_, unsup, xname)),
                     LoopSpec("for", var="j", inv=lambda v, old, le_: kp_scan(v, old, le_, unsup, xname)),
                     LoopSpec("while", inv=lambda v, old, le_: kp_bubble(v, old, le_, unsup, xname)),
